@@ -45,6 +45,8 @@ var xlateTargets = map[string][]string{
 		"state.updateStateLiteral", "state.updateStateMatch", "state.updateStateRep", "state.updateStateShortRep",
 		"state.states", "state.litState",
 		"decodeDictCap", "DecodeDictCap", "EncodeDictCap",
+		"directCodec.Encode", "directCodec.Decode",
+		"treeCodec.Encode", "treeCodec.Decode", "treeReverseCodec.Encode", "treeReverseCodec.Decode",
 	},
 	".": {"padLen", "readUvarint"},
 }
@@ -173,6 +175,11 @@ func (x *xl) leanType(n ast.Node, t types.Type) string {
 	if a, ok := t.(*types.Array); ok {
 		return "(Array " + x.leanType(n, a.Elem()) + ")"
 	}
+	if sl, ok := t.(*types.Slice); ok {
+		if _, _, isInt := intInfo(sl.Elem()); isInt {
+			return "(Array " + x.leanType(n, sl.Elem()) + ")"
+		}
+	}
 	x.fail(n, "unsupported type %s", t)
 	return ""
 }
@@ -191,6 +198,9 @@ func (x *xl) zeroOf(n ast.Node, t types.Type) string {
 	}
 	if isErrorType(t) {
 		return "Go.Err.nil"
+	}
+	if _, ok := t.(*types.Slice); ok {
+		return "#[]"
 	}
 	return "(default : " + x.leanType(n, t) + ")"
 }
@@ -263,14 +273,15 @@ func leanIdent(s string) string {
 // per-function translation context
 
 type xctx struct {
-	x     *xl
-	f     *xfunc
-	names map[types.Object]string
-	used  map[string]bool
-	scope []types.Object // variables in scope, in declaration order (for loop tuples)
-	tmp   int
-	pre   []func(string) string
-	depth int
+	x       *xl
+	f       *xfunc
+	names   map[types.Object]string
+	used    map[string]bool
+	scope   []types.Object // variables in scope, in declaration order (for loop tuples)
+	tmp     int
+	idxMemo map[*ast.IndexExpr]string
+	pre     []func(string) string
+	depth   int
 	// loop context
 	inLoop   bool
 	loopRet  func(vals string) string // how to return from inside a loop
@@ -399,15 +410,7 @@ func (c *xctx) expr(e ast.Expr) string {
 	case *ast.SelectorExpr:
 		if sel, ok := info.Selections[v]; ok && sel.Kind() == types.FieldVal {
 			base := c.expr(v.X)
-			st := derefNamed(info.Types[v.X].Type)
-			if st == nil {
-				c.x.fail(e, "field of unsupported type")
-			}
-			xs := c.x.structOf(st)
-			if !xs.has[v.Sel.Name] {
-				c.x.fail(e, "field %s.%s is outside the translated subset", st.Obj().Name(), v.Sel.Name)
-			}
-			return fmt.Sprintf("%s.%s", base, leanIdent(v.Sel.Name))
+			return base + "." + strings.Join(c.fieldChain(v, sel), ".")
 		}
 		// qualified identifier
 		if o, ok := info.Uses[v.Sel].(*types.Var); ok && o.Pkg() != nil && isErrorType(o.Type()) {
@@ -491,6 +494,26 @@ func (c *xctx) nilOf(e ast.Expr) string {
 	return ""
 }
 
+// fieldChain resolves a field selection (including promotion through embedded structs) to the list of field names
+func (c *xctx) fieldChain(v *ast.SelectorExpr, sel *types.Selection) []string {
+	t := c.x.info.Types[v.X].Type
+	var names []string
+	for _, idx := range sel.Index() {
+		nm := derefNamed(t)
+		if nm == nil {
+			c.x.fail(v, "field of unsupported type")
+		}
+		xs := c.x.structOf(nm)
+		f := nm.Underlying().(*types.Struct).Field(idx)
+		if !xs.has[f.Name()] {
+			c.x.fail(v, "field %s.%s is outside the translated subset", nm.Obj().Name(), f.Name())
+		}
+		names = append(names, leanIdent(f.Name()))
+		t = f.Type()
+	}
+	return names
+}
+
 func derefNamed(t types.Type) *types.Named {
 	if p, ok := t.(*types.Pointer); ok {
 		t = p.Elem()
@@ -540,7 +563,17 @@ func (c *xctx) complit(cl *ast.CompositeLit) string {
 }
 
 func (c *xctx) index(v *ast.IndexExpr) string {
-	at, ok := c.x.info.Types[v.X].Type.Underlying().(*types.Array)
+	xt := c.x.info.Types[v.X].Type.Underlying()
+	if sl, ok := xt.(*types.Slice); ok {
+		arr := c.expr(v.X)
+		i, ok := c.idxMemo[v]
+		if !ok {
+			i = c.indexNat(v)
+			c.idxMemo[v] = i
+		}
+		return fmt.Sprintf("(%s.getD %s %s)", arr, i, c.x.zeroOf(v, sl.Elem()))
+	}
+	at, ok := xt.(*types.Array)
 	if !ok {
 		c.x.fail(v, "indexing of a non-array")
 	}
@@ -567,6 +600,28 @@ func (c *xctx) index(v *ast.IndexExpr) string {
 		return fmt.Sprintf("let %s := %s%sif %s%d ≤ %s then Go.Res.panic \"index out of range\" else%s%s", i, nat, c.ind(), neg, n, i, c.ind(), rest)
 	})
 	return fmt.Sprintf("(%s.getD %s %s)", arr, i, c.x.zeroOf(v, at.Elem()))
+}
+
+// indexNat: the index of a slice access as a Nat variable, bound after the range check (panic when out of range)
+func (c *xctx) indexNat(v *ast.IndexExpr) string {
+	_, signed, iok := intInfo(c.x.info.Types[v.Index].Type)
+	if !iok {
+		c.x.fail(v, "index type")
+	}
+	arr := c.expr(v.X)
+	idx := c.expr(v.Index)
+	nat := "(" + idx + ").toNat"
+	neg := ""
+	if signed {
+		nat = "(" + idx + ").toInt.toNat"
+		neg = fmt.Sprintf("(%s).toInt < 0 ∨ ", idx)
+	}
+	i := c.fresh("i")
+	c.f.canFail = true
+	c.pre = append(c.pre, func(rest string) string {
+		return fmt.Sprintf("let %s := %s%sif %s%s.size ≤ %s then Go.Res.panic \"index out of range\" else%s%s", i, nat, c.ind(), neg, arr, i, c.ind(), rest)
+	})
+	return i
 }
 
 func (c *xctx) binary(v *ast.BinaryExpr) string {
@@ -688,11 +743,17 @@ func (c *xctx) path(e ast.Expr) (types.Object, []string) {
 	case *ast.SelectorExpr:
 		if sel, ok := c.x.info.Selections[v]; ok && sel.Kind() == types.FieldVal {
 			o, p := c.path(v.X)
-			st := derefNamed(c.x.info.Types[v.X].Type)
-			if st == nil || !c.x.structOf(st).has[v.Sel.Name] {
-				c.x.fail(e, "field outside the subset")
+			return o, append(p, c.fieldChain(v, sel)...)
+		}
+	case *ast.IndexExpr:
+		if _, ok := c.x.info.Types[v.X].Type.Underlying().(*types.Slice); ok {
+			o, p := c.path(v.X)
+			i, ok := c.idxMemo[v]
+			if !ok {
+				i = c.indexNat(v)
+				c.idxMemo[v] = i
 			}
-			return o, append(p, leanIdent(v.Sel.Name))
+			return o, append(p, "["+i+"]")
 		}
 	}
 	c.x.fail(e, "unsupported assignment target %T", e)
@@ -712,6 +773,10 @@ func (c *xctx) assignTo(e ast.Expr, val string) string {
 func withPath(base string, p []string, val string) string {
 	if len(p) == 0 {
 		return val
+	}
+	if strings.HasPrefix(p[0], "[") {
+		i := strings.Trim(p[0], "[]")
+		return fmt.Sprintf("(%s.setIfInBounds %s %s)", base, i, withPath(fmt.Sprintf("(%s.getD %s default)", base, i), p[1:], val))
 	}
 	return fmt.Sprintf("{ %s with %s := %s }", base, p[0], withPath(base+"."+p[0], p[1:], val))
 }
@@ -1360,7 +1425,7 @@ func (x *xl) translate(f *xfunc) (err error) {
 		}
 	}()
 	gen := func() string {
-		c := &xctx{x: x, f: f, names: map[types.Object]string{}, used: map[string]bool{"fuel": true}}
+		c := &xctx{x: x, f: f, names: map[types.Object]string{}, used: map[string]bool{"fuel": true}, idxMemo: map[*ast.IndexExpr]string{}}
 		f.nloops = 0
 		f.aux = nil
 		var params []string
